@@ -46,7 +46,8 @@ def run(pid, tier):
         for cfg, db in dbs.items():
             ctx.cfg = cfg
             mod.run(ctx, db, tier)
-        ctx.check_floors()
+        if not ctx.violations:
+            ctx.check_floors()      # a concrete violation takes precedence over a missed instance-count floor
     except Broken as ex:
         broken = str(ex)
     except Exception as ex:
